@@ -54,6 +54,14 @@ async fn quiesce(net: &SimNet) -> (u64, bool) {
 
 impl RingN {
     pub fn new(knobs: &Knobs) -> RingN {
+        RingN::with_listeners(knobs, 1)
+    }
+
+    /// `listeners` accept loops, all clones of one MemcacheTcpServer (one shared
+    /// store and one shared connection-limit semaphore), each with its own
+    /// listener on the same port - what current-thread mode sets up with
+    /// SO_REUSEPORT. The simulator picks the listener for every connection.
+    pub fn with_listeners(knobs: &Knobs, listeners: usize) -> RingN {
         let rt = tokio::runtime::Builder::new_current_thread()
             .enable_time()
             .start_paused(true)
@@ -64,13 +72,16 @@ impl RingN {
         let timer = Arc::new(SystemTimer::new());
         let stack = build_store(knobs, timer.clone());
         let cfg = MemcacheServerConfig::new(knobs.timeout_secs, knobs.conn_limit, knobs.item_limit, knobs.backlog);
-        let mut server = MemcacheTcpServer::new(cfg, stack.cache.clone());
+        let server = MemcacheTcpServer::new(cfg, stack.cache.clone());
         let t2 = timer.clone();
         {
             let _g = rt.enter();
-            rt.spawn(async move {
-                let _ = server.run("127.0.0.1:11211").await;
-            });
+            for _ in 0..listeners.max(1) {
+                let mut s = server.clone();
+                rt.spawn(async move {
+                    let _ = s.run("127.0.0.1:11211").await;
+                });
+            }
             rt.spawn(async move { t2.run().await });
         }
         let mut r = RingN {
@@ -108,6 +119,17 @@ impl RingN {
 
     pub fn view(&self, c: usize) -> Option<ConnView> {
         self.ids.get(c).copied().flatten().map(|id| self.net.view(id))
+    }
+
+    /// Connect scenario connection `c` to listener `l`.
+    pub fn connect_to(&mut self, c: usize, l: usize) -> bool {
+        while self.ids.len() <= c {
+            self.ids.push(None);
+        }
+        let id = self.net.connect(l);
+        self.ids[c] = id;
+        self.settle();
+        id.is_some()
     }
 
     pub fn sim_id(&self, c: usize) -> Option<usize> {
